@@ -221,3 +221,17 @@ func SpellName(t *rapid.T, n wm.Name) string {
 	}
 	return sb.String()
 }
+
+// SpellLabelRaw is SpellLabel that may also write octets >= 0x80 raw (as a user typing UTF-8 or
+// Latin-1 into an API would), which the name functions accept as ordinary octets.
+func SpellLabelRaw(t *rapid.T, l []byte) string {
+	var sb strings.Builder
+	for _, b := range l {
+		if b >= 0x80 && rapid.IntRange(0, 2).Draw(t, "raw") != 0 {
+			sb.WriteByte(b)
+			continue
+		}
+		sb.WriteString(SpellLabel(t, []byte{b}))
+	}
+	return sb.String()
+}
